@@ -155,8 +155,8 @@ def spawn_worker(binp, job, work, idx, gomaxprocs=1):
     return p, out, log
 
 
-def run_workers(binp, job, work, nworkers, gomaxprocs=1, wall_limit=None):
-    procs = [spawn_worker(binp, job, work, i, gomaxprocs) for i in range(nworkers)]
+def run_workers(binp, job, work, nworkers, gomaxprocs=1, wall_limit=None, first_idx=0):
+    procs = [spawn_worker(binp, job, work, first_idx + i, gomaxprocs) for i in range(nworkers)]
     outs = []
     t0 = time.time()
     for i, (p, out, log) in enumerate(procs):
@@ -291,6 +291,20 @@ def main():
         swork = os.path.join(work, "run-" + scn["name"])
         os.makedirs(swork, exist_ok=True)
         outs = run_workers(binp, job, swork, nworkers, wall_limit=job["seconds"] * 4 + 600)
+        if any(o["data"] is None for o in outs) and not any((o["data"] or {}).get("violations") for o in outs):
+            # Workers died without recording a violation. Code under test that keeps process-wide state across
+            # runs can take a worker down in its second bubble ("synctest channel from outside bubble") before any
+            # oracle has spoken; look at fresh processes that perform exactly ONE run each (a violation found there
+            # is checkpointed before shrinking and verified by replay like any other).
+            tjob = dict(job, runs=1, seconds=0)
+            twork = os.path.join(swork, "single-runs")
+            os.makedirs(twork, exist_ok=True)
+            for batch in range(6):
+                touts = run_workers(binp, tjob, twork, 16, wall_limit=300, first_idx=1000 + 16 * batch)
+                good = [o for o in touts if o["data"] is not None]
+                outs += good
+                if any(o["data"].get("violations") for o in good):
+                    break
         per_scn[scn["name"]] = outs
         all_outs += outs
 
